@@ -14,3 +14,4 @@ done
 git -C /repo checkout -- .
 git -C /repo status --short
 python3 /verif/extract/extract.py /repo/src /verif/lean/Kanal/Generated.lean >/dev/null
+python3 /verif/extract/rs2lean.py /repo/src /verif/lean/Kanal/GenCode.lean >/dev/null
